@@ -27,6 +27,34 @@ from typing import List, Optional, cast
 import math
 
 
+def _is_inf(x) -> bool:
+    return isinstance(x, float) and math.isinf(x)
+
+
+def _bound_add(a, b):
+    """Sum of two interval bounds; an infinite bound absorbs (no float arithmetic
+    with arbitrarily large integers or fractions)."""
+    if _is_inf(a):
+        return a
+    if _is_inf(b):
+        return b
+    return a + b
+
+
+def _bound_neg(a):
+    return -a
+
+
+def _bound_mul(a, b):
+    """Product of two interval bounds with the interval-arithmetic convention
+    0 * inf = 0."""
+    if _is_inf(a) or _is_inf(b):
+        if a == 0 or b == 0:
+            return 0
+        return float("inf") if (a > 0) == (b > 0) else -float("inf")
+    return a * b
+
+
 class TypeChecker(walkers.dag.DagWalker):
     """Walker used to retrieve the `Type` of an expression."""
 
@@ -235,13 +263,13 @@ class TypeChecker(walkers.dag.DagWalker):
             elif lower is None:
                 lower = x.lower_bound
             else:
-                lower += x.lower_bound
+                lower = _bound_add(lower, x.lower_bound)
             if x.upper_bound is None:
                 upper = float("inf")
             elif upper is None:
                 upper = x.upper_bound
             else:
-                upper += x.upper_bound
+                upper = _bound_add(upper, x.upper_bound)
         if lower == -float("inf"):
             lower = None
         if upper == float("inf"):
@@ -276,8 +304,8 @@ class TypeChecker(walkers.dag.DagWalker):
         left_upper = float("inf") if left.upper_bound is None else left.upper_bound
         right_lower = -float("inf") if right.lower_bound is None else right.lower_bound
         right_upper = float("inf") if right.upper_bound is None else right.upper_bound
-        lower = left_lower - right_upper
-        upper = left_upper - right_lower
+        lower = _bound_add(left_lower, _bound_neg(right_upper))
+        upper = _bound_add(left_upper, _bound_neg(right_lower))
         if lower == -float("inf"):
             lower = None
         if upper == float("inf"):
@@ -310,16 +338,17 @@ class TypeChecker(walkers.dag.DagWalker):
                 assert upper is not None
                 # both bounds must be computed from the same products: assigning
                 # lower first and reusing it for upper overestimates the latter.
-                products = (lower * l, lower * u, upper * l, upper * u)
+                products = (
+                    _bound_mul(lower, l),
+                    _bound_mul(lower, u),
+                    _bound_mul(upper, l),
+                    _bound_mul(upper, u),
+                )
                 lower = min(products)
                 upper = max(products)
-        if lower == -float("inf") or (
-            lower is not None and math.isnan(cast(float, lower))
-        ):
+        if lower == -float("inf"):
             lower = None
-        if upper == float("inf") or (
-            upper is not None and math.isnan(cast(float, upper))
-        ):
+        if upper == float("inf"):
             upper = None
         if has_real:
             lower = cast(Optional[Fraction], lower)
@@ -345,19 +374,23 @@ class TypeChecker(walkers.dag.DagWalker):
         if to_skip or right.lower_bound != right.upper_bound:
             pass
         else:
-            left_lower = -float("inf") if left.lower_bound is None else left.lower_bound
-            left_upper = float("inf") if left.upper_bound is None else left.upper_bound
-            right = right.lower_bound
-            lower = min(left_lower / right, left_upper / right)
-            upper = max(left_lower / right, left_upper / right)
-        if lower == -float("inf"):
-            lower = None
-        if upper == float("inf"):
-            upper = None
-        if lower is not None:
-            lower = Fraction(lower)
-        if upper is not None:
-            upper = Fraction(upper)
+            # exact rational arithmetic: a float quotient is rounded and can exclude
+            # the true value (e.g. 1/3)
+            divisor = Fraction(right.lower_bound)
+            q_lower = (
+                None
+                if left.lower_bound is None
+                else Fraction(left.lower_bound) / divisor
+            )
+            q_upper = (
+                None
+                if left.upper_bound is None
+                else Fraction(left.upper_bound) / divisor
+            )
+            if divisor > 0:
+                lower, upper = q_lower, q_upper
+            else:
+                lower, upper = q_upper, q_lower
         return self.environment.type_manager.RealType(lower, upper)
 
     @walkers.handles(OperatorKind.LE, OperatorKind.LT)
